@@ -69,6 +69,7 @@ fn parse_free_modules() -> Vec<(String, ModuleSrc)> {
 pub fn history(bytes: &[u8]) -> (Vec<Snippet>, Vec<&'static str>) {
     let mut prof = profiles::mixed();
     prof.w_fiber = 0;
+    prof.user_errors = false;
     prof.tracer = false;
     prof.size = 400;
     prof.guard = 8;
@@ -89,7 +90,19 @@ pub fn history(bytes: &[u8]) -> (Vec<Snippet>, Vec<&'static str>) {
             }
             2 => {
                 // a global defined before the reset must be gone after it, a module loads afresh
-                v.push(Snippet::Code(vec![Stmt::var("before_reset", Some(Expr::str("defined before reset")))], "code"));
+                // (also names bound to built-in functions and bound natives: what a global holds must
+                // not decide whether the reset drops it)
+                v.push(Snippet::Code(
+                    vec![
+                        Stmt::var("before_reset", Some(Expr::str("defined before reset"))),
+                        Stmt::var("alias_print", Some(Expr::var("print"))),
+                        Stmt::var("alias_type", Some(Expr::var("type"))),
+                        Stmt::var("alias_bound", Some(Expr::get(Expr::VecLit(vec![Expr::Num(1.0)]), "len"))),
+                        Stmt::var("alias_class", Some(Expr::var("Error"))),
+                        Stmt::expr(Expr::callv("alias_print", vec![Expr::callv("alias_type", vec![Expr::callv("alias_bound", vec![])])])),
+                    ],
+                    "code",
+                ));
                 if g.rd.flag() {
                     v.push(Snippet::Code(
                         vec![
@@ -109,6 +122,26 @@ pub fn history(bytes: &[u8]) -> (Vec<Snippet>, Vec<&'static str>) {
                     vec![
                         Stmt::new(StmtKind::Try(
                             vec![Stmt::print(Expr::var("before_reset"))],
+                            Some(("er".into(), vec![Stmt::print(Expr::callv("type", vec![Expr::var("er")]))])),
+                            None,
+                        )),
+                        Stmt::new(StmtKind::Try(
+                            vec![Stmt::expr(Expr::callv("alias_print", vec![Expr::str("alias survived the reset")]))],
+                            Some(("er".into(), vec![Stmt::print(Expr::callv("type", vec![Expr::var("er")]))])),
+                            None,
+                        )),
+                        Stmt::new(StmtKind::Try(
+                            vec![Stmt::print(Expr::callv("alias_type", vec![Expr::Num(1.0)]))],
+                            Some(("er".into(), vec![Stmt::print(Expr::callv("type", vec![Expr::var("er")]))])),
+                            None,
+                        )),
+                        Stmt::new(StmtKind::Try(
+                            vec![Stmt::print(Expr::callv("alias_bound", vec![]))],
+                            Some(("er".into(), vec![Stmt::print(Expr::callv("type", vec![Expr::var("er")]))])),
+                            None,
+                        )),
+                        Stmt::new(StmtKind::Try(
+                            vec![Stmt::print(Expr::var("alias_class"))],
                             Some(("er".into(), vec![Stmt::print(Expr::callv("type", vec![Expr::var("er")]))])),
                             None,
                         )),
@@ -263,6 +296,61 @@ pub fn history(bytes: &[u8]) -> (Vec<Snippet>, Vec<&'static str>) {
                 ];
                 v.push(Snippet::Code(s, "import"));
                 labels.push("import");
+            }
+            11 => {
+                // a fiber held by a global dies of an uncaught error in one snippet; later snippets see
+                // a finished fiber, not one that still has frames, handlers or a caller
+                let wk = g.fresh_pub("gwk");
+                let yields = g.rd.below(3);
+                let mut body: Vec<Stmt> = Vec::new();
+                for k in 0..yields {
+                    body.push(Stmt::expr(Expr::invoke(Expr::var("Fiber"), "yield", vec![Expr::Num(k as f64)])));
+                }
+                let in_try = g.rd.chance(1, 3);
+                let dying: Stmt = match g.rd.below(3) {
+                    0 => Stmt::new(StmtKind::Throw(Expr::str("dies"))),
+                    1 => Stmt::var("x", Some(Expr::bin(BinOp::Add, Expr::Nil, Expr::Num(1.0)))),
+                    _ => Stmt::expr(Expr::invoke(Expr::VecLit(vec![]), "pop", vec![])),
+                };
+                if in_try {
+                    // a finally-only handler inside the fiber is still installed when it dies
+                    body.push(Stmt::new(StmtKind::Try(vec![dying], None, Some(vec![Stmt::print(Expr::str("fiber finally"))]))));
+                } else {
+                    body.push(dying);
+                }
+                body.push(Stmt::new(StmtKind::Return(Some(Expr::str("unreachable")))));
+                v.push(Snippet::Code(
+                    vec![
+                        Stmt::var(&wk, Some(Expr::invoke(Expr::var("Fiber"), "new", vec![Expr::Lambda(Rc::new(FnDef {
+                            name: std::cell::RefCell::new("lambda-0".into()),
+                            params: vec![],
+                            body: Body::Block(body),
+                            kind: FnKind::Lambda,
+                        }))]))),
+                        Stmt::print(Expr::invoke(Expr::var(&wk), "has_finished", vec![])),
+                    ],
+                    "code",
+                ));
+                for _ in 0..yields {
+                    v.push(Snippet::Code(vec![Stmt::print(Expr::invoke(Expr::var(&wk), "call", vec![]))], "code"));
+                }
+                v.push(Snippet::Code(
+                    vec![Stmt::print(Expr::invoke(Expr::var(&wk), "call", vec![])), Stmt::var("never_defined", Some(Expr::Num(1.0)))],
+                    "global_fiber_dies",
+                ));
+                labels.push("global_fiber_dies");
+                failed_before = true;
+                let probe = vec![
+                    Stmt::print(Expr::invoke(Expr::var(&wk), "has_finished", vec![])),
+                    Stmt::new(StmtKind::Try(
+                        vec![Stmt::print(Expr::invoke(Expr::var(&wk), "call", vec![]))],
+                        Some(("ef".into(), vec![Stmt::print(Expr::callv("type", vec![Expr::var("ef")]))])),
+                        None,
+                    )),
+                    Stmt::print(Expr::invoke(Expr::var(&wk), "has_finished", vec![])),
+                ];
+                v.push(Snippet::Code(probe, "probe_dead_fiber"));
+                labels.push("probe_dead_fiber");
             }
             10 => {
                 // try/finally and a fiber after earlier failures: nothing may be left in flight
@@ -427,7 +515,7 @@ impl Property for C15 {
                     }
                     let (out, end) = session.feed(&src);
                     let fuel = matches!(&end, End::Err(_, m) if yrun::is_fuel(m));
-                    let o = Outcome { out, end, fuel_exhausted: fuel, uas: vec![], uas_count: 0, collections: 0, swept: 0, fiber_mismatches: 0, executed: 0 };
+                    let o = Outcome { out, end, fuel_exhausted: fuel, uas: vec![], uas_count: 0, collections: 0, swept: 0, fiber_mismatches: 0, dangling_upvalues: 0, executed: 0 };
                     match compare_outcome(&rout, &o, &dcfg) {
                         DiffVerdict::Agree => {}
                         DiffVerdict::Discard(w) => {
